@@ -39,6 +39,9 @@ Main results
   concatenated text.
 * `norm_hard_preserved_fis`, `equiv_sound_fis`  the same for `use_field_init_shorthand = true`, up to
   `squash` (an identifier that repeats the hard token before it is dropped: `a: a` ~ `a`).
+* `literal_canon_value`  the literal-spelling canonicalisations of the validator keep the value.
+* `validator_distinguishes`  the validator (which compares soft tokens as well) tells apart 1-tuples,
+  tuple arguments, statements vs tail expressions, dropped parentheses, `a & &b` vs `a && b`.
 * `tokEquiv_refl`, `tokEquiv_symm`, `tokEquiv_trans`: the validator is an equivalence relation.
 * `norm_idem_counterexample`: `norm` is NOT idempotent on arbitrary token lists (`< , >`); nothing
   above needs idempotence, the validator being the kernel of `norm`.
@@ -156,6 +159,19 @@ theorem canonTok_other (cfg : Cfg) (t : Tok) :
     (t.isDoc = false → isLit t = false → canonTok cfg t = t) ∧
     ((canonTok cfg t).cls = t.cls ∨ (t.cls = ['L','i'] ∧ (canonTok cfg t).cls = ['L','f'])) :=
   ⟨RF.Tok.canonTok_other cfg t, canonTok_cls cfg t⟩
+
+/-- "Literals keep their value" on the validator's side.  `hex_literal_case`: the canonical spelling of
+an integer literal has the same value, so two literals the validator identifies have equal values
+(the suffix is part of the compared text).  `float_literal_trailing_zero`: the canonical spelling is
+the text itself or the text without a fractional part made of `0` and `_` only. -/
+theorem literal_canon_value (a b : List Char) :
+    intValue (hexCanon a) = intValue a ∧ (hexCanon a = hexCanon b → intValue a = intValue b) ∧
+    (floatCanon a = a ∨ ∃ ip fp rest, a = ip ++ '.' :: (fp ++ rest) ∧
+      fp.all (fun c => c == '0' || c == '_') = true ∧ floatCanon a = ip ++ rest) :=
+  ⟨intValue_hexCanon a, hexCanon_eq_value, floatCanon_shape a⟩
+
+example : hexCanon (chars% "0xDEAD_beefu32") = (chars% "0xdead_beefu32") ∧ intValue (chars% "0xDEAD_beefu32") = 3735928559 ∧
+    floatCanon (chars% "1.0_0e5") = (chars% "1e5") ∧ floatCanon (chars% "1.50") = (chars% "1.50") := by decide +kernel
 
 /-- Rule 12 keeps the text: `resplit` only cuts a float-shaped literal into `digits . digits`. -/
 theorem resplit_text (ts : List Tok) :
@@ -312,6 +328,27 @@ example : equiv { fis := true } (lexEx (chars% "S { a : a , b : c }")) (lexEx (c
     equiv { fis := true } (lexEx (chars% "S { a : a , b : c }")) (lexEx (chars% "S { a , b }")) = false ∧
     squash noTok (render (hardSeq { fis := true } (lexEx (chars% "S { a : a , b : c }")))) =
       squash noTok (render (hardSeq { fis := true } (lexEx (chars% "S { a , b : c }")))) := by decide +kernel
+
+/-- The validator compares SOFT tokens too (after the closed-list normalisations), which the theorems
+above do not need but the search relies on.  Pairs it tells apart: a 1-tuple and a parenthesised
+expression; a tuple argument and two arguments; a unit argument and no argument; a statement and a
+tail expression; parenthesised and bare operands; a binary `&` of a borrow and a lazy `&&` (sent as
+one token by the lexer front end).  Pairs it identifies: trailing commas of lists and arguments, the
+`;` after `return` / `break` / `continue` and after a `loop` statement, doubled parentheses. -/
+theorem validator_distinguishes :
+    equiv {} (lexEx (chars% "let t = ( x , ) ;")) (lexEx (chars% "let t = ( x ) ;")) = false ∧
+    equiv {} (lexEx (chars% "f ( ( a , b ) ) ;")) (lexEx (chars% "f ( a , b ) ;")) = false ∧
+    equiv {} (lexEx (chars% "f ( ( ) ) ;")) (lexEx (chars% "f ( ) ;")) = false ∧
+    equiv {} (lexEx (chars% "fn g ( ) { f ( ) ; }")) (lexEx (chars% "fn g ( ) { f ( ) }")) = false ∧
+    equiv {} (lexEx (chars% "( a + b ) * c")) (lexEx (chars% "a + b * c")) = false ∧
+    equiv {} [mkI ['a'], mkP '&', mkP '&', mkI ['b']] [mkI ['a'], ⟨['p'], ['&', '&']⟩, mkI ['b']] = false ∧
+    equiv {} (lexEx (chars% "f ( a , b , ) ;")) (lexEx (chars% "f ( a , b ) ;")) = true ∧
+    equiv {} (lexEx (chars% "let t = ( x , y , ) ;")) (lexEx (chars% "let t = ( x , y ) ;")) = true ∧
+    equiv {} (lexEx (chars% "fn g ( ) { return 1 ; }")) (lexEx (chars% "fn g ( ) { return 1 }")) = true ∧
+    equiv {} (lexEx (chars% "fn g ( ) { loop { } ; h ( ) ; }")) (lexEx (chars% "fn g ( ) { loop { } h ( ) ; }")) = true ∧
+    equiv {} (lexEx (chars% "let y = ( ( a + b ) ) ;")) (lexEx (chars% "let y = ( a + b ) ;")) = true ∧
+    equiv {} (lexEx (chars% "f ( ( a ) ) ;")) (lexEx (chars% "f ( a ) ;")) = true := by
+  decide +kernel
 
 /-- `norm` is not idempotent on arbitrary token lists: rule 1 (`,` before `>`) runs after rule 3
 (`<>`), so `< , >` normalises to `< >`, which normalises to nothing.  Soundness does not need
